@@ -1,6 +1,7 @@
 package props
 
 import (
+	"bytes"
 	"pgregory.net/rapid"
 
 	"verifharness/ref"
@@ -187,9 +188,11 @@ func genPMT(t *rapid.T, minStreams, maxStreams int) *ref.PMT {
 		for s.PID = 0x1F00; used[s.PID]; s.PID++ {
 		}
 		budget -= 5
+		// (bodies of zeros or of 0xFF: a run of 0xFF as long as a packet payload is section data, not padding)
+		fillByte := rapid.SampledFrom([]byte{0x00, 0xFF}).Draw(t, "fill-byte")
 		for budget >= 2 {
 			n := min(budget-2, 200)
-			s.Descs = append(s.Descs, ref.Descriptor{Tag: 0xC1, Body: make([]byte, n)})
+			s.Descs = append(s.Descs, ref.Descriptor{Tag: 0xC1, Body: bytes.Repeat([]byte{fillByte}, n)})
 			budget -= 2 + n
 		}
 		if budget == 0 || budget == 1 {
